@@ -133,12 +133,20 @@ def report_case_failures(ctx, cases, what, scope_filter=None, describe=None):
                 p = ctx.violation("counterexample", payload, True)
                 rewrite_with_replay_cmd(ctx, p)
                 reported_bad += 1
-    for cid, c in cases.items():
+    # differences whose input is itself a failing input (the model accepts, the implementation refuses, dies, clobbers or
+    # answers differently the second time) come first; plain differences of two accepted programs are reported only when no
+    # failing input was found at all
+    diffs = [(cid, c) for cid, c in cases.items() if c["corr"] == "DIFF"]
+    diffs.sort(key=lambda x: 0 if (x[1].get("model", "").startswith("OK") and not x[1]["go"].startswith("OK")) else 1)
+    found_any = any(c.get("model", "").startswith("OK") and not c["go"].startswith("OK") for _, c in diffs)
+    for cid, c in diffs:
         if c["corr"] == "DIFF":
             ndiff += 1
-            if reported_diff < 3 and nbad == 0:
-                model_ok = c.get("model", "").startswith("OK")
-                go_ok = c["go"].startswith("OK")
+            model_ok = c.get("model", "").startswith("OK")
+            go_ok = c["go"].startswith("OK")
+            if (found_any or nbad) and not (model_ok and not go_ok):
+                continue
+            if reported_diff < 3 and (nbad == 0 or (model_ok and not go_ok)):
                 # the (proved) model accepts this input and the implementation refuses it or panics: the input itself
                 # is the failing input. Two different accepted programs, or an input only the implementation accepts,
                 # are a broken correspondence without a failing input.
@@ -233,7 +241,7 @@ def check_C06(ctx, replay=None):
             lines.append("B bh%d %d %d %s" % (j, rng.randint(0, 1), nops, " ".join(toks)))
             lines += bg.events(nev)
     cases, summary = st.run(lines)
-    ndiff, nbad = report_case_failures(ctx, cases, "builder programs (C06)")
+    ndiff, nbad = report_case_failures(ctx, cases, "builder programs (C06; every builder value is assembled twice: the list of the first call, or, where the second call returns another list, that of the second call)")
     # coverage
     ok_cases = [c for c in cases.values() if c["go"].startswith("OK")]
     bridged = 0
@@ -836,6 +844,21 @@ def check_C07(ctx, replay=None):
             pol = dict(default=errno, groups=base + [dict(action=allow, names=tbl[:j], nwc=[])], arch="X86_64", kind="limit_ladder")
             cid = "xl%d" % j
             out.append((cid, "P %s 1 X86_64 %s" % (cid, PG.tokens(pol)), [], dict(kind="limit_ladder", arch="X86_64", defect=None, le=1, groups=21)))
+        # every hand-picked unknown name ONCE as the only unknown name of its group, in each of the two lists, in front of,
+        # between and behind valid names
+        k = 0
+        for b in ["", " ", "nosuchcall", "READ", "read ", " read", "exit\x00", "open\n", "\tread", "\xff\xfe", "%d%s", "x32_read", "getpid2", "0", "read,write"]:
+            for where in ("names_first", "names_last", "names_only", "cond_name"):
+                good = rng.sample(tbl, 2)
+                if where == "cond_name":
+                    g = dict(action=errno, names=good, nwc=[dict(name=b, conds=[(0, "Eq", 1)])])
+                else:
+                    g = dict(action=errno, names={"names_first": [b] + good, "names_last": good + [b], "names_only": [b]}[where], nwc=[])
+                pol = dict(default=allow, groups=[dict(action=errno, names=rng.sample(tbl, 2), nwc=[]), g], arch="X86_64", kind="one_unknown_name")
+                cid = "xu%d" % k
+                k += 1
+                out.append((cid, "P %s 1 X86_64 %s" % (cid, PG.tokens(pol)), [], dict(kind="one_unknown_name", arch="X86_64",
+                                                                                     defect="unknown_cond_name" if where == "cond_name" else "unknown_name", le=1, groups=2)))
         return out
     res = policy_stream(ctx, "C07", ["names", "cond", "mixed", "mixed", "degenerate", "condlong", "names_long"],
                         400 if q else 6000, 0, defects=PG.DEFECTS, defect_share=0.6, replay=replay,
